@@ -479,6 +479,16 @@ impl Qcow2Header {
         let end = start + ((rc_blk.1 as usize) << cluster_bits);
         let mut ref_b = RefBlock::new(refcount_order, end - start, Some(rc_blk.0));
 
+        // all meta clusters are counted in this single refcount block
+        let meta_clusters = (l1_table.0 >> cluster_bits) + l1_table.1 as u64;
+        if meta_clusters > ref_b.entries() as u64 {
+            return Err(format!(
+                "{meta_clusters} meta clusters can't be counted in one refcount block of {} entries",
+                ref_b.entries()
+            )
+            .into());
+        }
+
         //header
         ref_b.increment(0)?;
         assert!(ref_b.get(0).into_plain() == 1);
